@@ -612,13 +612,18 @@ type openFailOnceLoader struct {
 	n     int
 	fired *int
 	kind  int // what the failure looks like: a plain error, "does not exist" (although the member has the file), "permission", io.EOF
+	// shadowing (optional): the failure waits for the first Open, from the at-th on, of a path that a
+	// later member holds too - the place where answering from the wrong member would go unnoticed least
+	shadowing func(p string) bool
+	done      bool
 }
 
 func (l *openFailOnceLoader) Exists(p string) bool { return l.inner.Exists(p) }
 
 func (l *openFailOnceLoader) Open(p string) (io.ReadCloser, error) {
 	l.n++
-	if l.n == l.at {
+	if (l.shadowing == nil && l.n == l.at) || (l.shadowing != nil && !l.done && l.n >= l.at && l.shadowing(p)) {
+		l.done = true
 		*l.fired++
 		switch l.kind {
 		case 1:
@@ -896,8 +901,21 @@ func RunC19(env *sim.Env) {
 		// show up in another stack built from the same list)
 		// one stack in three has a member whose k-th Open fails once
 		if t.Choose(3) == 2 {
-			v := luts[t.Choose(len(luts))]
-			v.loader = &openFailOnceLoader{inner: v.loader, at: t.Range(1, 4), fired: &c.memberOpenFails, kind: []int{0, 1, 1, 1, 2, 3}[t.Choose(6)]}
+			vi := t.Choose(len(luts))
+			v := luts[vi]
+			fl := &openFailOnceLoader{inner: v.loader, at: t.Range(1, 4), fired: &c.memberOpenFails, kind: []int{0, 1, 1, 1, 2, 3}[t.Choose(6)]}
+			if t.Choose(2) == 1 {
+				later := luts[vi+1:]
+				fl.shadowing = func(p string) bool {
+					for _, o := range later {
+						if _, ok := o.model.files[Normalize(p)]; ok {
+							return true
+						}
+					}
+					return false
+				}
+			}
+			v.loader = fl
 			c.hist = append(c.hist, "member-"+v.kind+"-open-fails-once")
 			env.Stat("probe:multi_with_a_member_whose_open_fails_once", 1)
 		}
@@ -950,6 +968,10 @@ func RunC19(env *sim.Env) {
 			switch {
 			case t.Choose(5) < 2:
 				c.edit(luts[t.Choose(len(luts))])
+				// edits of a stack gather on few paths: the same path in several members is what a stack is for
+				if c.lastEdit != "/" && c.lastEdit != "" {
+					c.recentQ = append(c.recentQ, c.lastEdit, c.lastEdit)
+				}
 			case inner == nil && t.Choose(12) == 11:
 				// ClearLoaders, then some of the same loader instances come back in another order
 				m.ClearLoaders()
